@@ -267,6 +267,25 @@ func run(cfg runConfig) (*runResult, error) {
 		e.obls = append(e.obls, o)
 	}
 	res.obls = e.obls
+	if os.Getenv("VCGO_NOPROVE") != "" {
+		cnt := map[string]int{}
+		for _, o := range res.obls {
+			k := o.Kind + ":syntactic"
+			if o.Result == nil {
+				k = o.Kind + ":NEEDS-SOLVER"
+				o.Result = &SolveResult{Status: "unsat", Solver: "skipped"}
+			}
+			cnt[k]++
+		}
+		fmt.Println("obligation kinds:", cnt)
+		shown := map[string]int{}
+		for _, o := range res.obls {
+			if o.Result.Solver == "skipped" && shown[o.Kind] < 3 {
+				shown[o.Kind]++
+				fmt.Printf("  e.g. %s  hyps=%d goal=%s\n", o.Name, len(o.Hyps), trunc(o.Goal.Key(), 200))
+			}
+		}
+	}
 	discharge(res.obls, cfg.timeout, cfg.verbose)
 	for _, o := range res.obls {
 		if o.Result != nil {
@@ -289,13 +308,58 @@ func discharge(obls []*Obligation, timeout int, verbose bool) {
 			defer wg.Done()
 			sem <- struct{}{}
 			defer func() { <-sem }()
-			hyps := append([]*Term{}, o.Hyps...)
-			hyps = append(hyps, bitUFFacts(append(hyps, o.Goal))...)
-			q := &Query{Name: o.Name, Hyps: hyps, Goal: o.Goal, NIA: o.NIA}
 			t := timeout
 			if o.Timeout > 0 {
 				t = o.Timeout
 			}
+			if o.Alt != nil {
+				for _, depth := range []int{0, 1, 99} {
+					sel := relevantHyps(o.Hyps, o.Alt, depth)
+					if depth == 99 {
+						sel = o.Hyps
+					}
+					hs := append(append([]*Term{}, sel...), bitUFFacts(append(append([]*Term{}, sel...), o.Alt))...)
+					q := &Query{Name: fmt.Sprintf("%s.alt%d", o.Name, depth), Hyps: hs, Goal: o.Alt, NIA: o.NIA}
+					at := 3
+					if depth == 99 {
+						at = t
+					}
+					r := solve(q, at)
+					if r.Status == "unsat" {
+						r.Backend = "sufficient-condition"
+						o.Result = &r
+						return
+					}
+				}
+			}
+			// relevance filtering (cone of influence over shared symbols), widened step by step; dropping
+			// hypotheses is sound, the last attempt uses all of them
+			if o.Kind != "cover" && len(o.Hyps) > 40 {
+				spent := 0.0
+				for _, depth := range []int{0, 1, 3} {
+					sel := relevantHyps(o.Hyps, o.Goal, depth)
+					if len(sel) >= len(o.Hyps)*9/10 {
+						break
+					}
+					hs := append(append([]*Term{}, sel...), bitUFFacts(append(append([]*Term{}, sel...), o.Goal))...)
+					q := &Query{Name: fmt.Sprintf("%s.rel%d", o.Name, depth), Hyps: hs, Goal: o.Goal, NIA: o.NIA}
+					rt := t / 2
+					if rt < 2 {
+						rt = 2
+					}
+					r := solve(q, rt)
+					spent += r.Time
+					if r.Status == "unsat" {
+						r.Time = spent
+						r.Backend = fmt.Sprintf("relevance-depth-%d", depth)
+						o.Result = &r
+						return
+					}
+				}
+			}
+			hyps := append([]*Term{}, o.Hyps...)
+			hyps = append(hyps, bitUFFacts(append(hyps, o.Goal))...)
+			q := &Query{Name: o.Name, Hyps: hyps, Goal: o.Goal, NIA: o.NIA}
 			r := solve(q, t)
 			o.Result = &r
 		}(o)
@@ -481,3 +545,75 @@ func cmdCheck(args []string) int {
 }
 
 func typesPointer(t types.Type) types.Type { return types.NewPointer(t) }
+
+// termSymbols returns the variable / nullary symbols of a term.
+func termSymbols(t *Term, memo map[*Term]map[string]bool) map[string]bool {
+	if m, ok := memo[t]; ok {
+		return m
+	}
+	m := map[string]bool{}
+	t.walk(func(u *Term) {
+		if u.Op == "var" {
+			m[u.Name] = true
+		} else if u.Op == "app" && len(u.Args) == 0 {
+			m["@"+u.Name] = true
+		}
+	})
+	memo[t] = m
+	return m
+}
+
+// relevantHyps selects the hypotheses connected to the goal through shared symbols within `depth` rounds.
+func relevantHyps(hyps []*Term, goal *Term, depth int) []*Term {
+	memo := map[*Term]map[string]bool{}
+	syms := map[string]bool{}
+	for k := range termSymbols(goal, memo) {
+		syms[k] = true
+	}
+	picked := make([]bool, len(hyps))
+	for d := 0; d < depth; d++ {
+		changed := false
+		for i, h := range hyps {
+			if picked[i] {
+				continue
+			}
+			hs := termSymbols(h, memo)
+			hit := false
+			for k := range hs {
+				if syms[k] {
+					hit = true
+					break
+				}
+			}
+			if hit {
+				picked[i] = true
+				changed = true
+				if d+1 < depth {
+					for k := range hs {
+						syms[k] = true
+					}
+				}
+			}
+		}
+		if d+1 < depth {
+			// symbols are widened only between rounds
+			for i, h := range hyps {
+				if picked[i] {
+					for k := range termSymbols(h, memo) {
+						syms[k] = true
+					}
+				}
+			}
+		}
+		if !changed {
+			break
+		}
+	}
+	var out []*Term
+	for i, h := range hyps {
+		if picked[i] {
+			out = append(out, h)
+		}
+	}
+	return out
+}
